@@ -57,6 +57,7 @@ var (
 	errShortUniqueID        = errors.New("UniqueIdentifier.ID < 32 bytes")
 	errUnexpectedExtHdrLen  = errors.New("unexpected extension header length")
 	errUnexpectedExtHdrType = errors.New("unexpected extension header type")
+	errUnexpectedNonceLen   = errors.New("unexpected nonce length")
 	errUnexpectedResponseID = errors.New("unexpected response ID")
 )
 
@@ -217,6 +218,10 @@ func (pkt *Packet) authenticate(b []byte, key []byte) error {
 	aessiv, err := miscreant.NewAEAD("AES-CMAC-SIV", key, 16)
 	if err != nil {
 		return err
+	}
+
+	if len(pkt.Auth.Nonce) != aessiv.NonceSize() {
+		return errUnexpectedNonceLen
 	}
 
 	decrytedBuf, err := aessiv.Open(nil, pkt.Auth.Nonce, pkt.Auth.CipherText, b[:pkt.Auth.pos])
